@@ -18,10 +18,13 @@ import (
 	"strconv"
 	"strings"
 	"sync"
+	"time"
 
 	"github.com/cespare/xxhash"
 	"github.com/pilosa/pilosa"
+	pilosahttp "github.com/pilosa/pilosa/http"
 	"verifharness/vh"
+	"verifharness/vh/srv"
 )
 
 type prop struct {
@@ -29,13 +32,16 @@ type prop struct {
 	st    [2]*pilosa.TranslateFile
 	cut   int64
 	sizes []int
+	s     *srv.Server // in-process pilosa for the `http` lines, started on first use
+	nidx  int
 }
 
 func (p *prop) Rule() string {
 	return "histories over two stores (0 primary, 1 read-only replica): translate batches with repeats over a small per-case key pool " +
 		"(ASCII, empty, Unicode, NUL, 127/128/5000/16384-byte keys, clusters of keys sharing a robin-hood home slot incl. the wrap-around slots 255/0), " +
 		"batches of > 230 keys to force table growth, reverse lookups, restarts, replication sessions cut at every entry boundary and mid-entry with " +
-		"read sizes 1..100000, concurrent callers with overlapping batches; a case is non-trivial when a key is translated at least twice in one namespace " +
+		"read sizes 1..100000, concurrent callers with overlapping batches, and `http` lines where an in-process server translates column keys and a fresh store " +
+		"replicates its log over the real GET /internal/translate/data through pilosa/http's translate store; a case is non-trivial when a key is translated at least twice in one namespace " +
 		"(or a batch repeats a key) and the history contains a restart, a replication session, a growth batch or concurrent callers"
 }
 
@@ -503,6 +509,8 @@ func (p *prop) execLine(l string) string {
 		}
 		vh.Count("concurrent-lines")
 		return "seq=" + seqOfDump(pilosa.VerifC24IndexDump(p.st[0], ns.index, ns.field, ns.row)) + " ok"
+	case ws[0] == "http" && len(ws) == 2:
+		return p.execHTTP(ws[1])
 	case ws[0] == "chk" && len(ws) == 4:
 		i, ok0 := storeIdx(ws[1])
 		ns, ok1 := parseNs(ws[2])
@@ -547,6 +555,82 @@ func (p *prop) execLine(l string) string {
 		return fmt.Sprintf("ok distinct=%d", len(distinct))
 	}
 	return "bad-op"
+}
+
+// execHTTP: column keys are translated by an in-process server (index with keys, one Set per key),
+// then a fresh TranslateFile whose primary is pilosa/http's translate store replicates the server's
+// whole log over GET /internal/translate/data; the copy must equal the server's file and map every
+// key to the id the server gave it.
+func (p *prop) execHTTP(keyTok string) string {
+	keys, ok := parseKeys(keyTok)
+	if !ok {
+		return "bad-op"
+	}
+	for _, k := range keys {
+		for _, c := range []byte(k) {
+			if !(c >= 'a' && c <= 'z' || c >= '0' && c <= '9') {
+				return "bad-op"
+			}
+		}
+		if k == "" {
+			return "bad-op"
+		}
+	}
+	if p.s == nil {
+		p.s = srv.Start(1)
+	}
+	p.nidx++
+	index := fmt.Sprintf("h%d", p.nidx)
+	ctx := context.Background()
+	if _, err := p.s.API.CreateIndex(ctx, index, pilosa.IndexOptions{Keys: true}); err != nil {
+		return "err:create-index"
+	}
+	defer p.s.API.DeleteIndex(ctx, index)
+	if _, err := p.s.API.CreateField(ctx, index, "f", pilosa.OptFieldTypeSet("ranked", 100)); err != nil {
+		return "err:create-field"
+	}
+	for _, k := range keys {
+		if _, err := p.s.Query(index, fmt.Sprintf(`Set("%s", f=1)`, k), nil); err != nil {
+			return "err:query"
+		}
+	}
+	primary := filepath.Join(p.s.Dir, ".keys")
+	want, err := os.ReadFile(primary)
+	if err != nil {
+		return "err:read-primary"
+	}
+	rdir, err := os.MkdirTemp("", "verif-c24-http-")
+	if err != nil {
+		return "err:tmpdir"
+	}
+	defer os.RemoveAll(rdir)
+	r := pilosa.NewTranslateFile(pilosa.OptTranslateFileMapSize(1 << 24))
+	r.Path = filepath.Join(rdir, "keys")
+	r.PrimaryTranslateStore = pilosahttp.NewTranslateStore(p.s.API.Node())
+	if err := r.Open(); err != nil {
+		return "err:open"
+	}
+	defer r.Close()
+	rctx, cancel := context.WithCancel(ctx)
+	done := make(chan error, 1)
+	go func() { done <- pilosa.VerifC24Replicate(rctx, r) }()
+	deadline := time.Now().Add(120 * time.Second)
+	for pilosa.VerifC24Size(r) < int64(len(want)) && time.Now().Before(deadline) {
+		time.Sleep(2 * time.Millisecond)
+	}
+	cancel()
+	select {
+	case <-done:
+	case <-time.After(120 * time.Second):
+		return "err:replicate-stuck"
+	}
+	got, _ := os.ReadFile(r.Path)
+	ids, err := r.TranslateColumnsToUint64(index, keys)
+	if err != nil {
+		return "same=" + strconv.FormatBool(bytes.Equal(got, want)) + " err:readonly"
+	}
+	vh.Count("http-replication")
+	return "same=" + strconv.FormatBool(bytes.Equal(got, want)) + " " + showIDs(ids)
 }
 
 // ---------- generation ----------
@@ -666,6 +750,14 @@ func genHistory(r *vh.Rng) vh.Case {
 			lines = append(lines, fmt.Sprintf("chk %d %s %s", r.Intn(2), ns, genBatch(r, pool, 5)))
 		}
 	}
+	if r.Chance(1, 12) {
+		n := r.Range(1, 5)
+		ks := make([]string, n)
+		for i := range ks {
+			ks[i] = "k" + strconv.Itoa(r.Range(0, 6))
+		}
+		lines = append(lines, "http "+strings.Join(ks, ","))
+	}
 	return vh.Case{Lines: lines, Nontrivial: trs >= 2 && special}
 }
 
@@ -777,6 +869,11 @@ func genConcurrent(r *vh.Rng) vh.Case {
 
 func main() {
 	p := &prop{}
-	defer p.reset()
+	defer func() {
+		p.reset()
+		if p.s != nil {
+			p.s.Stop()
+		}
+	}()
 	vh.Main(p)
 }
